@@ -28,6 +28,8 @@ package bed
 //@   ensures @C04 lineOK ==> p0 + len(line) <= S.end && forall j int :: 0 <= j && j < len(line) ==> line[j] == S.in[p0+j] && line[j] != 10
 //@   ensures @C04 lineOK ==> p0 + len(line) == S.end || S.in[p0+len(line)] == 10 || (S.in[p0+len(line)] == 13 && (p0+len(line)+1 == S.end || S.in[p0+len(line)+1] == 10))
 //@   ensures @C04 lineOK ==> S.pos == S.end || S.pos == p0 + len(line) + 1 || S.pos == p0 + len(line) + 2
+// exactly one CR before the terminator is dropped: a line that is directly followed by LF or the end of the stream does not end in CR
+//@   ensures @C04 @C06 lineOK && len(line) > 0 && (p0 + len(line) == S.end || S.in[p0+len(line)] == 10) ==> line[len(line)-1] != 13
 //@   let FL0 := splitF(line, 9, 0)
 //@   let bcL := (splitN(line, 9) > 9 && splitF(line, 9, 9) != "") ? atoi(splitF(line, 9, 9)) : 0
 //@   let okL := 3 <= splitN(line, 9) && splitN(line, 9) <= 12 && (n0 == 0 || n0 == splitN(line, 9)) && atoiOK(splitF(line, 9, 1)) && atoiOK(splitF(line, 9, 2)) &&
